@@ -64,7 +64,7 @@ def _ctx_for(spec, ex):
     return ctx
 
 
-def generate(spec, repo=REPO):
+def generate(spec, repo=REPO, no_loop_contracts=False):
     """-> (c_text, spans) ; spans: list of dict(key,file,line0,line1,sha)"""
     pieces = {}
     spans = []
@@ -102,7 +102,8 @@ def generate(spec, repo=REPO):
             pieces['%s.loop%d.cond' % (key, ordn)] = cond.strip()
             pieces['%s.loop%d.body#raw' % (key, ordn)] = body
             pieces['%s.loop%d.body' % (key, ordn)] = body
-        c = cxx2c.splice_loop_contracts(c, ex.get('loops'))
+        if not no_loop_contracts:
+            c = cxx2c.splice_loop_contracts(c, ex.get('loops'))
         cxx2c.residual_scan(c, key)
         pieces[key] = c
         pieces[key + '#raw'] = c
